@@ -125,6 +125,11 @@ func (c *allOfConstraintCompiler) extendWith(node schema.Node, name string) {
 
 	for i, childNode := range fromObject.Children() {
 		key := fromObject.Key(i)
+		// The very same property inherited once more (@c and its parent @b are
+		// both listed) is not a conflict.
+		if n, ok := toObject.Child(key.Key, key.IsShortcut); ok && n == childNode {
+			continue
+		}
 		toObject.AddChild(key, childNode) // can panic ErrDuplicateKeysInSchema
 	}
 
